@@ -42,7 +42,8 @@ def parse_word(w0):
 
 
 def expand(text):
-    """-> list of (value, kind) with value a Fraction, None (jump) or ('log', a, b, n, k); or None if not a valid list"""
+    """-> list of (value, kind) with value a Fraction, None (jump), ('lin', a, b, n, k) or ('log', a, b, n, k);
+    or None if not a valid list"""
     out = []
     prev = None
     pend = None
@@ -60,7 +61,7 @@ def expand(text):
                     if is_log:
                         out.append((("log", a, arg, n, k), "log_interpolate"))
                     else:
-                        out.append((a + (arg - a) * k / (n + 1), "interpolate"))
+                        out.append((("lin", a, arg, n, k), "interpolate"))
                 out.append((arg, "log_interpolate" if is_log else "interpolate"))
                 pend = None
             else:
@@ -96,6 +97,13 @@ def matches(denoted, got):
     """denoted: value of expand(); got: float/int or None"""
     if denoted is None or got is None:
         return denoted is None and got is None
+    if isinstance(denoted, tuple) and denoted[0] == "lin":
+        # an interpolate is judged on the scale of its interpolation: a double computation of a + (b-a)k/(n+1)
+        # cannot be closer than ~1e-16 * max(|a|,|b|) to a value that should be 0
+        _, a, b, n, k = denoted
+        x = a + (b - a) * k / (n + 1)
+        got = Fraction(got)
+        return close(x, got) or abs(x - got) <= REL_TOL * max(abs(a), abs(b))
     if isinstance(denoted, tuple):
         _, a, b, n, k = denoted
         if got <= 0:
